@@ -543,6 +543,42 @@ class Case:
         except Exception as ex:
             self.fail("C18:set-raises:" + type(ex).__name__, f"{hn}.name = {text!r}: {str(ex)[:160]}")
 
+    def op_arr(self, target=None, vals=None):
+        """assign new numbers (same length) to an array attribute of a leaf-like instance: the attribute is a view of the buffer data,
+        wherever the buffer's storage is NOW (the model has no arrays: recorded for the replay, the Mirror oracle checks the library)"""
+        cands = [(n, o) for n, o in self.insts() if self.U.cls_index(o) in self.U.leaflike]
+        if target is not None:
+            cands = [(target, self.handles[target])] if target in self.handles else []
+        if not cands:
+            return
+        hn, obj = self.r.choice(cands)
+        try:
+            n = len(obj.arr)
+        except Exception:
+            return
+        vals = [float(self.r.randint(20, 29)) for _ in range(n)] if vals is None else vals[:n]
+        self.ops.append("arr " + hn + " " + (",".join(str(int(v)) for v in vals) or "-"))
+        self.exp.append(None)
+        self.last_target = None
+        try:
+            obj.arr = vals
+            self.tags["arr.ok"] += 1
+            a, b = [float(x) for x in obj.arr], [float(x) for x in obj._xobject.arr.to_nparray()]
+            if a != vals or b != vals:
+                self.fail("C18:array-attribute", f"{hn}.arr = {vals}: the attribute reads {a}, the buffer data {b}")
+        except Exception as ex:
+            self.fail("C18:set-raises:" + type(ex).__name__, f"{hn}.arr = {vals}: {str(ex)[:160]}")
+
+    def op_growbuf(self, bi=None):
+        """an allocation that does not fit: the buffer's storage is replaced by a larger one (recorded as `pad`)"""
+        bi = self.r.randrange(2) if bi is None else bi
+        b = self.bufs[bi]
+        n = int(b.capacity)
+        b.allocate(n)
+        self.ops.append(f"pad {bi} {n}")
+        self.exp.append(None)
+        self.tags["buffer-grown"] += 1
+
     # ------------------------------------------------------------------ oracle
     def values(self, obj, depth=0):
         """value of a hybrid instance through its ATTRIBUTES (numbers, nested values; references as the referent's value)"""
@@ -742,7 +778,12 @@ def dict_ops(c, r, lines, expect, ctxs):
     lines.append(U.dict_line())
     expect.append("ok")
     ctxs.append(c.ctx)
-    for hn, obj in c.insts():
+    # a class DERIVED from another (class 3 from class 0, own defaults): whichever of the two is converted first in the process must
+    # not decide the other's defaults - both orders are taken
+    insts = list(c.insts())
+    first = r.choice([0, 3])
+    insts.sort(key=lambda p_: 0 if U.cls_index(p_[1]) == first else 1)
+    for hn, obj in insts:
         ci = U.cls_index(obj)
         if c.stale_parts(obj):
             c.tags["dict.skipped-stale-view"] += 1        # O-30: what such a handle reads is not its buffer data
@@ -857,6 +898,8 @@ def replay_ops(ops, fails, tags):
                 c.op_move(target=(w[1], int(w[2])))
             elif w[0] == "str":
                 c.op_str(target=w[1], text="" if w[2] == "-" else bytes.fromhex(w[2]).decode("utf-8"))
+            elif w[0] == "arr":
+                c.op_arr(target=w[1], vals=[] if w[2] == "-" else [float(x) for x in w[2].split(",")])
             elif w[0] == "pad":
                 c.bufs[int(w[1])].allocate(int(w[2]))
                 c.ops.append(line)
@@ -1045,12 +1088,33 @@ def corpus_history6(r, fails, tags):
     return c
 
 
+def corpus_history7(r, fails, tags):
+    """an array attribute is read, the buffer's storage is replaced by a larger one, the attribute is assigned: the numbers reach
+    the buffer data (the view is of the storage of NOW)"""
+    c = Case(r, fails, tags, force={"k1": "R", "k1b": None, "k2": "N", "k3": "N"})
+    c.op_new(ci=0, bi=0)
+    if "H1" in c.handles and c.check_mirror(c.ops[-1]):
+        for name, kw in [("op_arr", dict(target="H1")), ("op_growbuf", dict(bi=0)), ("op_arr", dict(target="H1")),
+                         ("op_new", dict(ci=2, bi=0, given={"leaf": "H1"})), ("op_growbuf", dict(bi=0)), ("op_arr", dict(target="H1")),
+                         ("op_str", dict(target="H1")), ("op_arr", dict(target="H1"))]:
+            before = len(c.ops)
+            c.last_target = None
+            c.last_field = None
+            try:
+                getattr(c, name)(**kw)
+            except KeyError:
+                break
+            if len(c.ops) > before and not c.check_mirror(c.ops[-1]):
+                break
+    return c
+
+
 def run_history(r, fails, tags, n_ops):
     c = Case(r, fails, tags)
     c.op_new(0)
     c.op_new(0)
     for _ in range(n_ops):
-        k = r.choice(["new", "new", "get", "get", "set", "set", "set", "set", "alias", "copy", "move", "py", "str"])
+        k = r.choice(["new", "new", "get", "get", "set", "set", "set", "set", "alias", "copy", "move", "py", "str", "arr", "arr", "growbuf"])
         before = len(c.ops)
         c.last_target = None
         c.last_field = None
@@ -1067,7 +1131,7 @@ def run_all(tier, seed, extra=None):
     n_hist = {"quick": 40, "thorough": 6000}[tier]
     cases, expects, ctxs = [], [], []
     for hi in range(n_hist):
-        c = corpus_history(r, fails, tags) if hi == 0 else corpus_history2(r, fails, tags) if hi == 1 else corpus_history3(r, fails, tags) if hi == 2 else corpus_history4(r, fails, tags) if hi == 3 else corpus_history5(r, fails, tags) if hi == 4 else corpus_history6(r, fails, tags) if hi == 5 else run_history(r, fails, tags, r.choice([8, 14, 24]))
+        c = corpus_history(r, fails, tags) if hi == 0 else corpus_history2(r, fails, tags) if hi == 1 else corpus_history3(r, fails, tags) if hi == 2 else corpus_history4(r, fails, tags) if hi == 3 else corpus_history5(r, fails, tags) if hi == 4 else corpus_history6(r, fails, tags) if hi == 5 else corpus_history7(r, fails, tags) if hi == 6 else run_history(r, fails, tags, r.choice([8, 14, 24]))
         if extra:
             extra(c, r)
         cases.append(c.ops)
@@ -1093,8 +1157,23 @@ def run_dict(tier, seed):
     fails, tags = [], collections.Counter()
     n_hist = {"quick": 30, "thorough": 4000}[tier]
     lines, expect, ctxs = [], [], []
-    for _ in range(n_hist):
+    for hi in range(n_hist):
         c = run_history(r, fails, tags, r.choice([6, 10, 16]))
+        if hi < 6:
+            # corpus: a base-class and a derived-class instance whose common fields hold each other's declared defaults, in a universe
+            # where those defaults differ (both conversion orders are taken over the six cases)
+            U = c.U
+            for fld in ("a", "v"):
+                d0, d3 = U.defaults[(0, fld)], U.defaults[(3, fld)]
+                if d0 != d3:
+                    for ci, val in ((0, d3), (3, d0), (3, d3), (0, d0)):
+                        try:
+                            kw = {U.pyname(ci, "a"): 1, U.pyname(ci, "v"): 2}
+                            kw[U.pyname(ci, fld)] = val
+                            c.handles[c.new_name()] = U.classes[ci](_buffer=c.bufs[0], name="t", arr=[1.0], brr=[11, 12, 13], **kw)
+                            tags["dict.corpus.defaults-of-base-and-derived"] += 1
+                        except Exception:
+                            pass
         dict_ops(c, r, lines, expect, ctxs)
     got = common.run_driver("dict", lines)
     mism = []
